@@ -106,8 +106,7 @@ def traces(ctx, fmt, make_trace, ntraces, module, cfg, attrs_of, label="random r
         for tid in chunk:
             r = random.Random(ctx.seed * 9176 + tid)
             import signal
-            old = signal.signal(signal.SIGALRM, diskcheck._on_alarm)
-            signal.alarm(60)
+            disarm = diskcheck.arm_watchdog(60)
             try:
                 out.append(make_trace(tid, r))
             except diskcheck.Hang as e:
@@ -118,8 +117,7 @@ def traces(ctx, fmt, make_trace, ntraces, module, cfg, attrs_of, label="random r
                 viol.append(({"format": fmt, "fail": "op-raised", "exc": type(e).__name__},
                              {"kind": "trace-gen", "tid": tid, "error": repr(e)[:300], "tb": traceback.format_exc()[-1500:]}))
             finally:
-                signal.alarm(0)
-                signal.signal(signal.SIGALRM, old)
+                disarm()
         return {"traces": out, "viol": viol}
 
     _GEN["fn"] = gen
